@@ -160,3 +160,129 @@ pub proof fn lemma_add_rule_inv(w: World, ct: ContextRuleType, name: String, vu:
     lemma_add_rule_abs(w, ct, name, vu, signers, pol);
     lemma_insert_inv(w, add_rule_post(w, ct, name, vu, signers, pol), sa_next_id(w), ct, signers, smap_keys(pol));
 }
+
+/// abstract effect "replace the definition of stored rule `id`, keeping its type" (fingerprints aside)
+pub open spec fn rule_updated(w: World, w2: World, id: u32, signers: Seq<Signer>, policies: Seq<Address>) -> bool {
+    &&& sa_exists(w, id) && sa_exists(w2, id)
+    &&& sa_meta(w2, id).unwrap().context_type == sa_meta(w, id).unwrap().context_type
+    &&& sa_signers(w2, id) == signers && sa_policies(w2, id) == policies
+    &&& rules_same_except(w, w2, id)
+    &&& forall|t: ContextRuleType| #[trigger] sa_ids(w2, t) == sa_ids(w, t)
+    &&& counters_same(w, w2)
+}
+pub proof fn lemma_update_inv(w: World, w2: World, id: u32, signers: Seq<Signer>, policies: Seq<Address>)
+    requires inv_ids(w), inv_rules(w), rule_updated(w, w2, id, signers, policies),
+        limits_ok(signers, policies), signers.no_duplicates(), policies.no_duplicates(),
+    ensures inv_ids(w2), inv_rules(w2),
+{
+    assert forall|j: u32| #[trigger] sa_exists(w2, j) == sa_exists(w, j) by { if j != id { assert(sa_meta(w2, j) == sa_meta(w, j)); } }
+    lemma_count_below_change(w, w2, sa_next_id(w) as int, id);
+    assert forall|t: ContextRuleType, i: int| 0 <= i < sa_ids(w2, t).len() implies
+        sa_exists(w2, #[trigger] sa_ids(w2, t)[i]) && sa_meta(w2, sa_ids(w2, t)[i]).unwrap().context_type == t by {
+        assert(sa_ids(w2, t)[i] == sa_ids(w, t)[i]);
+        assert(sa_exists(w, sa_ids(w, t)[i]));
+        if sa_ids(w, t)[i] != id { assert(sa_meta(w2, sa_ids(w, t)[i]) == sa_meta(w, sa_ids(w, t)[i])); }
+    }
+    assert forall|t: ContextRuleType, i: int, j: int| 0 <= i < j < sa_ids(w2, t).len() implies #[trigger] sa_ids(w2, t)[i] < #[trigger] sa_ids(w2, t)[j] by {
+        assert(sa_ids(w2, t)[i] == sa_ids(w, t)[i] && sa_ids(w2, t)[j] == sa_ids(w, t)[j]);
+    }
+    assert forall|j: u32| #[trigger] sa_exists(w2, j) implies sa_ids(w2, sa_meta(w2, j).unwrap().context_type).contains(j) by {
+        assert(sa_exists(w, j));
+        if j != id { assert(sa_meta(w2, j) == sa_meta(w, j)); }
+        let t = sa_meta(w, j).unwrap().context_type;
+        let i = choose|i: int| 0 <= i < sa_ids(w, t).len() && sa_ids(w, t)[i] == j;
+        assert(sa_ids(w2, t)[i] == j);
+    }
+    assert forall|j: u32| #[trigger] sa_exists(w2, j) implies limits_ok(sa_signers(w2, j), sa_policies(w2, j))
+        && sa_signers(w2, j).no_duplicates() && sa_policies(w2, j).no_duplicates() by {
+        assert(sa_exists(w, j));
+        if j != id { assert(sa_meta(w2, j) == sa_meta(w, j)); }
+    }
+}
+
+/// abstract effect "delete stored rule `id`" (fingerprints aside)
+pub open spec fn rule_removed(w: World, w2: World, id: u32) -> bool {
+    let ct = sa_meta(w, id).unwrap().context_type;
+    &&& sa_exists(w, id) && !sa_exists(w2, id)
+    &&& rules_same_except(w, w2, id)
+    &&& sa_ids(w2, ct) == sa_ids(w, ct).remove(last_idx(sa_ids(w, ct), id))
+    &&& ids_same_except(w, w2, ct)
+    &&& sa_next_id(w2) == sa_next_id(w)
+    &&& sa_count(w2) == sa_count(w) - 1
+    &&& iget(w2, SmartAccountStorageKey::Count).is_some()
+}
+pub proof fn lemma_seq_remove<T>(s: Seq<T>, p: int)
+    requires 0 <= p < s.len(),
+    ensures s.remove(p).len() == s.len() - 1,
+        forall|k: int| 0 <= k < s.len() - 1 ==> #[trigger] s.remove(p)[k] == s[if k >= p { k + 1 } else { k }],
+{}
+pub proof fn lemma_remove_inv_lists(w: World, w2: World, id: u32)
+    requires inv_ids(w), rule_removed(w, w2, id),
+    ensures
+        forall|t: ContextRuleType, i: int| 0 <= i < sa_ids(w2, t).len() ==>
+            sa_exists(w2, #[trigger] sa_ids(w2, t)[i]) && sa_meta(w2, sa_ids(w2, t)[i]).unwrap().context_type == t,
+        forall|t: ContextRuleType, i: int, j: int| 0 <= i < j < sa_ids(w2, t).len() ==> #[trigger] sa_ids(w2, t)[i] < #[trigger] sa_ids(w2, t)[j],
+{
+    let ct = sa_meta(w, id).unwrap().context_type;
+    let ids = sa_ids(w, ct);
+    let pos = last_idx(ids, id);
+    lemma_last_idx_none(ids, id);
+    assert(ids.contains(id));
+    lemma_seq_remove(ids, pos);
+    assert forall|t: ContextRuleType, i: int| 0 <= i < sa_ids(w2, t).len() implies
+        sa_exists(w2, #[trigger] sa_ids(w2, t)[i]) && sa_meta(w2, sa_ids(w2, t)[i]).unwrap().context_type == t by {
+        let i0 = if t == ct && i >= pos { i + 1 } else { i };
+        if t == ct { assert(sa_ids(w2, t)[i] == ids.remove(pos)[i]); } else { assert(sa_ids(w2, t) == sa_ids(w, t)); }
+        let x = sa_ids(w, t)[i0];
+        assert(sa_ids(w2, t)[i] == x);
+        assert(sa_exists(w, x));
+        if t == ct { if i0 < pos { assert(ids[i0] < ids[pos]); } else { assert(ids[pos] < ids[i0]); } }
+        assert(x != id);
+        assert(sa_meta(w2, x) == sa_meta(w, x));
+    }
+    assert forall|t: ContextRuleType, i: int, j: int| 0 <= i < j < sa_ids(w2, t).len() implies #[trigger] sa_ids(w2, t)[i] < #[trigger] sa_ids(w2, t)[j] by {
+        let i0 = if t == ct && i >= pos { i + 1 } else { i };
+        let j0 = if t == ct && j >= pos { j + 1 } else { j };
+        if t == ct { assert(sa_ids(w2, t)[i] == ids.remove(pos)[i] && sa_ids(w2, t)[j] == ids.remove(pos)[j]); } else { assert(sa_ids(w2, t) == sa_ids(w, t)); }
+        assert(sa_ids(w2, t)[i] == sa_ids(w, t)[i0] && sa_ids(w2, t)[j] == sa_ids(w, t)[j0]);
+        assert(sa_ids(w, t)[i0] < sa_ids(w, t)[j0]);
+    }
+}
+pub proof fn lemma_remove_inv_listed(w: World, w2: World, id: u32)
+    requires inv_ids(w), rule_removed(w, w2, id),
+    ensures forall|j: u32| #[trigger] sa_exists(w2, j) ==> sa_ids(w2, sa_meta(w2, j).unwrap().context_type).contains(j),
+{
+    let ct = sa_meta(w, id).unwrap().context_type;
+    let ids = sa_ids(w, ct);
+    let pos = last_idx(ids, id);
+    lemma_last_idx_none(ids, id);
+    assert(ids.contains(id));
+    lemma_seq_remove(ids, pos);
+    assert forall|j: u32| #[trigger] sa_exists(w2, j) implies sa_ids(w2, sa_meta(w2, j).unwrap().context_type).contains(j) by {
+        assert(j != id);
+        assert(sa_meta(w2, j) == sa_meta(w, j));
+        assert(sa_exists(w, j));
+        let t = sa_meta(w, j).unwrap().context_type;
+        assert(sa_ids(w, t).contains(j));
+        let i = choose|i: int| 0 <= i < sa_ids(w, t).len() && sa_ids(w, t)[i] == j;
+        if t == ct {
+            assert(i != pos);
+            if i < pos { assert(ids.remove(pos)[i] == j); } else { assert(ids.remove(pos)[i - 1] == j); }
+        } else { assert(sa_ids(w2, t) == sa_ids(w, t)); assert(sa_ids(w2, t)[i] == j); }
+    }
+}
+pub proof fn lemma_remove_inv(w: World, w2: World, id: u32)
+    requires inv_ids(w), inv_rules(w), rule_removed(w, w2, id),
+    ensures inv_ids(w2), inv_rules(w2),
+{
+    lemma_remove_inv_lists(w, w2, id);
+    lemma_remove_inv_listed(w, w2, id);
+    assert forall|j: u32| j != id implies #[trigger] sa_exists(w2, j) == sa_exists(w, j) by { assert(sa_meta(w2, j) == sa_meta(w, j)); }
+    assert(id < sa_next_id(w));
+    lemma_count_below_change(w, w2, sa_next_id(w) as int, id);
+    assert forall|j: u32| #[trigger] sa_exists(w2, j) implies limits_ok(sa_signers(w2, j), sa_policies(w2, j))
+        && sa_signers(w2, j).no_duplicates() && sa_policies(w2, j).no_duplicates() by {
+        assert(j != id);
+        assert(sa_meta(w2, j) == sa_meta(w, j)); assert(sa_exists(w, j));
+    }
+}
